@@ -100,6 +100,15 @@ CHECKS = {
     note="Assumed: A1 (equality-to-zero tests on floats are exact in the real model; 'up to rounding' is not decided); matrices contain no DISALLOWED sentinel (the graders never produce one). "
          "The Lean weak-duality lemma of DESIGN Appendix A is not linked yet because steps 4/5 are not under contract: optimality is a bounded claim only.",
     design="6/C06"),
+ 'C05': dict(
+    technique="contract-based deductive verification (pyvc) for the submission-size rule and the helpers shared with C07/C06; exhaustive-search oracle through a table-driven subgrader as bounded stand-in for the numpy/closure-heavy assignment code",
+    text="Proved for all configurations: ListGrader.validate_submission returns only when the number of submitted inputs equals the number the configuration expects (grouping length, "
+         "else number of answers) and raises ConfigError otherwise -- so no call can return fewer or more results than inputs; consolidate_grades (used for grouped cost) per C07; the Munkres "
+         "helpers per C06. NOT proved (bounded only, with an exhaustive-search oracle): positional pairing and siblings in ordered mode, optimal one-to-one assignment for n <= 5 in every input "
+         "order, best of 1-3 alternative answer lists, results reported at the position of the input they grade (grouped and nested cases), partial_credit=False zeroing.",
+    note="find_optimal_order (nested comprehensions, closure, Munkres), get_ordered_input_list / ListGrader.check (comprehensions over effectful calls), groupify/ungroupify (nested comprehensions) "
+         "and get_best_result (numpy) are outside the verifier's subset: decided by the bounded tier only. Subgrader results are arbitrary well-formed entries (A15).",
+    design="6/C05"),
 }
 
 NOT_YET = {}
